@@ -417,6 +417,32 @@ fn fold(t: &CeremonyTrace, o: &CeremonyOutcome, findings: Vec<Finding>, rec: &mu
     if t.mode == Mode::C05 {
         sh.str(&format!("{:?}", t.ops));
     }
+    {
+        // construction path, wire form, key kinds and the character classes present in the body
+        let mut kinds: Vec<String> = t.signers.iter().filter_map(|k| t.keys.get(*k)).map(|k| format!("{:?}", k.kind)).collect();
+        kinds.sort();
+        let text = o.text.as_str();
+        let classes = [
+            text.contains("\\n"),
+            text.contains("\\\\"),
+            text.contains("\\\""),
+            text.contains("\\u00"),
+            text.chars().any(|c| (c as u32) > 0xffff),
+            text.chars().any(|c| (c as u32) > 0x7f && (c as u32) <= 0xffff),
+            text.contains("\\t"),
+            text.contains('\u{2028}'),
+        ];
+        sh.str(&format!(
+            "{}|{}|{}|{:?}|{:?}|{:?}|len{}",
+            matches!(t.body, BodySpec::Layout(_)),
+            t.typed_api,
+            t.builder_path,
+            std::mem::discriminant(&t.wire),
+            kinds,
+            classes,
+            (text.len() / 256).min(40)
+        ));
+    }
     rec.shapes.push((sh.finish(), !t.labels.is_empty() || !o.fired.is_empty()));
     for (hs, ps) in t.hash_seeds.iter().zip(t.perm_seeds.iter().chain(std::iter::repeat(&0))) {
         rec.schedules.push(hs ^ ps.rotate_left(17));
